@@ -71,6 +71,9 @@ impl BuzHash {
     /// Should be used for processing input until hash is valid.
     pub fn init(&mut self, in_val: u8) {
         if !self.window_full {
+            // Start counting repeated input from the last byte of the initial window.
+            self.last_input = in_val;
+            self.repeated_input = 0;
             let in_val = self.buzhash_table[in_val as usize];
             // Initialize sequence until window is full
             let shift = self.window - (self.index + 1);
